@@ -25,7 +25,7 @@ goroutine is enabled there — only the environment (`Ev.credit`) or somebody ca
 lets it go on.  That is the waiting point the watcher's `CancelWrite` exists for.
 
 Model assumptions: reads of the request body return (data or EOF; the read-error path with `bodyErr`
-is not modelled); 1xx responses are skipped; `RoundTripOpt`'s client cache (`removeClient`) is in the
+is not modelled); 1xx responses are the event `peerInterim` (round 6); `RoundTripOpt`'s client cache (`removeClient`) is in the
 abstract lifecycle (`Req/Pool/Cancel.lean`, `Conn.afterH3Fail`).
 
 Tied to the real code by the lanes `blocked_h3` / `script_h3` (package req, driver lane `c08h3life`)
@@ -199,6 +199,8 @@ inductive Ev
   | peerReset     -- the peer resets the stream (STOP_SENDING + RESET_STREAM) / the connection dies
   | callerClose   -- the application closes the response body
   | callerEOF     -- the application reads the response body to its end
+  | peerInterim   -- round 6: an informational 1xx response (100 Continue, 103 Early Hints) arrives and the
+                  -- caller's `ReadResponse` loop in `doRequest` consumes it and goes back to `ReadResponse`
   deriving DecidableEq, Repr
 
 def evGuard (s : St) : Ev → Bool
@@ -211,6 +213,7 @@ def evGuard (s : St) : Ev → Bool
   | .peerReset => s.send != .idle
   | .callerClose => s.cpc == .returned .resp
   | .callerEOF => s.cpc == .returned .resp && s.recv == .fin
+  | .peerInterim => s.cpc == .readResp && s.recv == .open && !s.respHdr
 
 def evApply (s : St) : Ev → St
   | .cancel e => { s with ctx := some e }
@@ -222,6 +225,7 @@ def evApply (s : St) : Ev → St
   | .peerReset => { s with send := s.send.resetIfOpen, recv := s.recv.resetIfOpen }
   | .callerClose => { s with reqDone := true, recv := s.recv.cancelIfOpen }
   | .callerEOF => { s with reqDone := true }
+  | .peerInterim => s   -- nothing the request's goroutines talk through changes: in particular NOT `reqDone`
 
 def init (hasBody : Bool) : St := { hasBody := hasBody }
 
@@ -267,5 +271,12 @@ def finalsNoCW : Nat → St → List St
     match (allActs.filter (guard s)).map (applyNoCancelWrite s) with
     | [] => [s]
     | l => l.flatMap (finalsNoCW fuel)
+
+/-! ### the variant of seed C08-r6-3: a response "that cannot have a body" signals `reqDone` — 1xx included -/
+
+/-- `evApply` with the interim response closing `reqDone` -/
+def evApplyInterimSignals (s : St) : Ev → St
+  | .peerInterim => { s with reqDone := true }
+  | e => evApply s e
 
 end Req.CancelH3
